@@ -124,6 +124,10 @@ def p21sim(name, text, flavour="san"):
         out = os.path.join(d, "p21sim")
         if build.newer(out, [pobj, so] + objs + build.static_libs(flavour)):
             build.link_cxx(flavour, [pobj, so] + objs, out, wraps=engines.WRAPS)
+        try:
+            os.utime(d)      # "recently used", for setup's pruning of stale cache entries
+        except OSError:
+            pass
         return out
 
 
